@@ -701,6 +701,27 @@ func (c *ctx) joinCase() {
 		ev["joineui"] = bs(jeui[:])
 		ev["devnonce"] = int(dn)
 	}
+	// the channel masks of a join-accept are a window of the network's six-mask table; another device's join-accept is composed
+	// from the whole table (what the caller composed is recorded BEFORE the first frame is processed)
+	var sib *lorawan.PHYPayload
+	var sibVal M
+	if ja, ok := phy.MACPayload.(*lorawan.JoinAcceptPayload); ok && isJA && ja.CFList != nil {
+		if mp, ok := ja.CFList.Payload.(*lorawan.CFListChannelMaskPayload); ok && len(mp.ChannelMasks) < 6 {
+			tbl := new([6]lorawan.ChMask)
+			k := copy(tbl[:], mp.ChannelMasks)
+			for i := k; i < 6; i++ {
+				for j := range tbl[i] {
+					tbl[i][j] = c.rnd.Intn(2) == 0
+				}
+				tbl[i][i] = true
+			}
+			mp.ChannelMasks = tbl[:k]
+			sja := *ja
+			sja.CFList = &lorawan.CFList{CFListType: ja.CFList.CFListType, Payload: &lorawan.CFListChannelMaskPayload{ChannelMasks: tbl[:6]}}
+			sib = &lorawan.PHYPayload{MHDR: phy.MHDR, MACPayload: &sja}
+			sibVal = phyToVal(sib)
+		}
+	}
 	res, _ := observeFast(func() error {
 		if isJA {
 			return phy.SetDownlinkJoinMIC(jt, jeui, dn, key)
@@ -710,6 +731,14 @@ func (c *ctx) joinCase() {
 	ev["err"] = res
 	ev["frame"] = phyToVal(phy)
 	c.emit(ev)
+	if sib != nil && res == "" {
+		e2 := M{"ev": "joinmic", "op": "set", "key": bs(key[:]), "jrtype": int(jt), "joineui": bs(jeui[:]), "devnonce": int(dn)}
+		r2, _ := observeFast(func() error { return sib.SetDownlinkJoinMIC(jt, jeui, dn, key) })
+		e2["err"] = r2
+		sibVal["mic"] = bs(sib.MIC[:])
+		e2["frame"] = sibVal
+		c.emit(e2)
+	}
 	if res != "" {
 		return
 	}
